@@ -262,7 +262,7 @@ class Interp:
         elif st == "unsat":
             status = "vacuous"
         else:
-            st2, _ = smt.check_sat([f for f in self.pc if not smt._has_quant(f)], timeout_ms=3000)
+            st2, _ = smt.check_sat([f for f in self.pc if not smt._has_quant(f)], timeout_ms=20000)
             backend = "z3-sat(ground part; quantified facts are proved invariants or definitions)"
             status = "covered" if st2 == "sat" else ("vacuous" if st2 == "unsat" else "unknown")
         self.obligations.append(Obligation("cover/" + name, (), status, backend, _t.time() - t0, self.path_id, "", None,
